@@ -11,8 +11,9 @@ CHECKS = {
     "C01": {
         "level": "exploration",
         "rule": "case = (replicas r in 0..12, delete-slots annotation drawn from a grammar: absent / well-formed int lists "
-                "with whitespace, duplicates, negatives, int32 extremes / malformed strings / random bytes, optional controller run); "
-                "oracle = greedy reference model of the desired ordinals compared with every helper and with the pod "
+                "with whitespace, duplicates, negatives, int32 extremes / malformed strings / lists with exactly one bad element / random bytes, optional controller run); "
+                "oracle = the harness' own strict reading of the value (a list of int32 literals, otherwise no slots; lists with null elements unjudged) and a "
+                "greedy reference model of the desired ordinals compared with every helper and with the pod "
                 "creations of the real controller on an empty cluster; non-trivial = a slot lies at or below the highest "
                 "desired ordinal (it displaces an ordinal) or the annotation is negative / extreme / malformed; "
                 "distinct = distinct (r, parsed slot set, annotation class, controller mode)",
@@ -135,7 +136,7 @@ CHECKS = {
                 "ControllerRevisions crossing owner x labels (selector / upgrade marker / both / none) x equal-or-different data, an optional second "
                 "set with an overlapping selector (replicas 0-3) that the same controller reconciles at up to 4 drawn points of the history - every write of those "
                 "reconciles must be on its own status, on pods named <second>-<ordinal> that it controls or may adopt, or on revisions no other owner controls -, and histories in which the cached set goes stale (set deleted, re-created with a new UID, deletion "
-                "timestamp set in the API only). Oracle per reconcile: adopt patches only on adoptable pods and only after an uncached GET that "
+                "timestamp set in the API only; a re-created set may select differently, and an eighth of the histories re-use the name twice at generation 1). Oracle per reconcile: adopt patches only on adoptable pods and only after an uncached GET that "
                 "confirmed UID and no deletion timestamp; release patches only on owned pods that stopped matching and removing exactly the own "
                 "reference; no write at all on a pod or ControllerRevision controlled by another owner; no delete of a non-member; status.replicas "
                 "counts member pods only; the set is written only through status; objects obtained from caches are unmodified afterwards. "
@@ -181,7 +182,7 @@ CHECKS = {
                 "through a real worker step to learn its N API calls; then for each chosen position (quick: 4 drawn per state, thorough: all N) x "
                 "each of 8 fault kinds (server error, timeout not applied, timeout applied, crash before / after the call, and the real "
                 "interferences conflict, not-found, already-exists) a fresh clone is reconciled with that fault; a quarter of the states add a "
-                "second fault in the first recovery reconcile (pairs); the sampled tier always adds the pod creates/deletes and the uncached "
+                "second fault (pairs), in the first recovery reconcile or - a third of them - 1-3 calls after the first one inside the same reconcile; the sampled tier always adds the pod creates/deletes and the uncached "
                 "confirmation read of the set. One evaluation = one (state, position, kind) execution. Oracle: an error "
                 "result bumps the key's requeue counter and the key comes back, success clears it; a transient fault that is answered with success "
                 "must leave the same state as the unfaulted run; a call that an interference made fail for real may be answered with success only "
@@ -276,7 +277,7 @@ CHECKS = {
                 "non-canonical quantities, nil-vs-empty collections; the rest minimal) and <= 20 ops over {reconcile, switch to template i (fresh or "
                 "an earlier one = rollback), edit replicas / delete-slots / pause flag / labels+annotations / history limit, kubelet progress, plant a "
                 "ControllerRevision under the very name the next reconcile would create (learnt from a dry run on a clone) with different or with "
-                "identical data}. Oracle after each successful unpaused reconcile: status.updateRevision names a stored revision whose data - decoded "
+                "identical data, reconcile during which the first ControllerRevision write meets a real conflict (retried inside the controller) / a timeout that was applied / a server error}. Oracle after each successful unpaused reconcile: status.updateRevision names a stored revision whose data - decoded "
                 "by the harness - equals the set's template and whose application (ApplyRevision) reproduces it; an unchanged template creates and "
                 "rewrites no revision and keeps the update revision's name whatever else was edited; returning to a recorded template re-uses that "
                 "revision, renumbered above all others, without a create; a planted different-data object is never overwritten nor adopted as update "
